@@ -20,7 +20,7 @@ import (
 // Documents (G-doc)
 
 var docKeys = []string{"a", "b", "c", "d", "", "é", "k-1", "a"}
-var docStrings = []string{"", "a", "b", "ab", "é", "𝒳y", "10", "1e2", "x y", "'", "\"", "\\", "`"}
+var docStrings = []string{"", "a", "b", "ab", "é", "𝒳y", "10", "1e2", "x y", "'", "\"", "\\", "`", "100%", "%s%d", "a%%b", "<&>", "\u2028"}
 var docNumbers = []float64{0, 1, -1, 2, 3, 10, 0.5, -2.5, 1e15, 7}
 
 type docOpts struct {
@@ -30,13 +30,13 @@ type docOpts struct {
 }
 
 func genScalar(t *rapid.T) interface{} {
-	switch rapid.IntRange(0, 9).Draw(t, "scalarKind") {
+	switch uni(t, 10, "scalarKind") {
 	case 0:
 		return nil
 	case 1:
 		return rapid.Bool().Draw(t, "bool")
 	case 2, 3, 4:
-		if rapid.IntRange(0, 7).Draw(t, "negzero") == 0 {
+		if uni(t, 8, "negzero") == 0 {
 			return negZero()
 		}
 		return rapid.SampledFrom(docNumbers).Draw(t, "num")
@@ -53,7 +53,7 @@ func genValue(t *rapid.T, depth int, o docOpts) interface{} {
 	if depth >= o.maxDepth {
 		return genScalar(t)
 	}
-	switch rapid.IntRange(0, 9).Draw(t, "valueKind") {
+	switch uni(t, 10, "valueKind") {
 	case 0, 1, 2:
 		return genScalar(t)
 	case 3, 4, 5:
@@ -66,7 +66,7 @@ func genValue(t *rapid.T, depth int, o docOpts) interface{} {
 func genArray(t *rapid.T, depth int, o docOpts) interface{} {
 	n := rapid.IntRange(0, o.maxWidth).Draw(t, "arrayLen")
 	out := make([]interface{}, 0, n)
-	switch rapid.IntRange(0, 5).Draw(t, "arrayShape") {
+	switch uni(t, 6, "arrayShape") {
 	case 0: // numbers
 		for i := 0; i < n; i++ {
 			out = append(out, float64(rapid.IntRange(-3, 9).Draw(t, "n")))
@@ -80,7 +80,7 @@ func genArray(t *rapid.T, depth int, o docOpts) interface{} {
 		for i := 0; i < n; i++ {
 			m := map[string]interface{}{}
 			for _, k := range keys {
-				if rapid.IntRange(0, 4).Draw(t, "hasKey") > 0 {
+				if uni(t, 5, "hasKey") > 0 {
 					m[k] = genValue(t, depth+2, o)
 				}
 			}
@@ -111,7 +111,7 @@ func genObject(t *rapid.T, depth int, o docOpts) interface{} {
 // genDoc draws a document: mostly objects/arrays at the root, every type possible.
 func genDoc(t *rapid.T) interface{} {
 	o := docOpts{maxDepth: 4, maxWidth: 4}
-	if rapid.IntRange(0, 9).Draw(t, "rootScalar") == 0 {
+	if uni(t, 10, "rootScalar") == 0 {
 		return genScalar(t)
 	}
 	return genValue(t, 0, o)
@@ -142,9 +142,35 @@ type exprGen struct {
 	f frag
 }
 
-func (g *exprGen) n(max int, label string) int { return rapid.IntRange(0, max-1).Draw(g.t, label) }
+func (g *exprGen) n(max int, label string) int { return uni(g.t, max, label) }
 func (g *exprGen) pct(p int, label string) bool {
-	return rapid.IntRange(0, 99).Draw(g.t, label) < p
+	return uni(g.t, 128, label)*100 < p*128
+}
+
+// uni draws a (nearly) uniform value in [0, n). rapid's integer generators are
+// deliberately biased towards small values and boundaries (measured: IntRange(0,99)
+// yields a value below 3 in 26% of the draws), which is right for sizes but distorts
+// categorical choices and percentages; uniform choices are assembled from single bits.
+func uni(t *rapid.T, n int, label string) int {
+	if n <= 1 {
+		return 0
+	}
+	nbits := 0
+	for (1 << uint(nbits)) < n {
+		nbits++
+	}
+	for try := 0; try < 3; try++ {
+		v := 0
+		for b := 0; b < nbits; b++ {
+			if rapid.Bool().Draw(t, label) {
+				v |= 1 << uint(b)
+			}
+		}
+		if v < n {
+			return v
+		}
+	}
+	return rapid.IntRange(0, n-1).Draw(t, label)
 }
 
 func spellKey(g *exprGen, k string) string {
@@ -755,7 +781,7 @@ func genExpr(t *rapid.T, doc interface{}, f frag) string {
 var wsChoices = []string{"", "", " ", " ", "  ", "\t", "\n", "\r\n"}
 
 func renderRandom(t *rapid.T, lex []string) string {
-	switch rapid.IntRange(0, 3).Draw(t, "render") {
+	switch uni(t, 4, "render") {
 	case 0:
 		return ref.RenderTight(lex)
 	case 1:
@@ -763,7 +789,7 @@ func renderRandom(t *rapid.T, lex []string) string {
 	default:
 		seps := make([]string, len(lex))
 		for i := range seps {
-			seps[i] = wsChoices[rapid.IntRange(0, len(wsChoices)-1).Draw(t, "ws")]
+			seps[i] = wsChoices[uni(t, len(wsChoices), "ws")]
 		}
 		return ref.Render(lex, func(i int) string { return seps[i] })
 	}
